@@ -252,6 +252,10 @@ def check(ctx):
         check_equal(ctx, 'R4.average', w4, 'average importance = sum of the importances / bins', got, want_avg)
     ctx.guard('R3', where, r3)
 
+    from . import C01
+    from .common import Proxy, share
+    share(ctx, 'C01', 'R5/C01.', ['R1.'])
+
     # ---------------------------------------------------------------- R3 uniform grid end points
     ctor = [c for c in instances(p, 'hep::vegas_pdf::vegas_pdf') if len(c.params) == 2 and not c.is_implicit
             and c.params[0].name == 'dimensions']
